@@ -38,7 +38,7 @@ func (x *runner) one(sp sv.Spec, classes ...string) {
 	for _, f := range fs {
 		x.res.Fail(f.Key, f.What, sp)
 	}
-	toks := sv.Tokenize([]byte(sp.Script), sp.NS)
+	toks := sp.Tokens()
 	nontrivial := false
 	for _, v := range o.Invs {
 		if v.Start.Local == "iq" {
@@ -134,7 +134,7 @@ func (x *runner) pending(r *hx.Rand, thorough bool) {
 			for _, typ := range incoming {
 				for _, name := range names {
 					for _, id := range []string{"x", "other"} {
-						for _, pl := range []string{"", "<query xmlns='urn:example:q'><a/>t</query>"} {
+						for _, pl := range []string{"", "<query xmlns='urn:example:q'><a/>t</query>", "<q xmlns='urn:example:q'>t<!-- c --></q><a/>"} {
 							n++
 							ta := ""
 							if typ != "\x00" {
@@ -432,6 +432,10 @@ var corpus = []sv.Spec{
 	{NS: "jabber:server", Own: "example.net", Script: "<iq type='set' id='x'/><iq type='error' id='y'><error type='cancel'/></iq><iq type='result' id='x'>t</iq></stream:stream>",
 		Pend: []sv.PendSpec{{ID: "x", Kind: "iq", Space: "jabber:server", Type: "set", Cancel: true, Prog: []sv.Op{{K: "read", N: 1}}},
 			{ID: "y", Kind: "iq", Type: "get", Prog: []sv.Op{{K: "read", N: 40, Stop: true}, {K: "read", N: 2}}}}, Label: "corpus/colliding-request-cancelled-waiter"},
+	// WebSocket framing: requests are answered as on TCP, the peer's <close/> ends Serve
+	{NS: "jabber:client", Own: sv.OwnFull, WS: true, Script: "<iq xmlns='jabber:client' type='get' id='x' from='a@example.net/r'><q xmlns='urn:example:q'/></iq><iq xmlns='jabber:client' type='result' id='y'/><iq type='get' id='z'/><close xmlns='urn:ietf:params:xml:ns:xmpp-framing'/>", Label: "corpus/ws"},
+	{NS: "jabber:client", Own: sv.OwnFull, WS: true, Mode: 1, Script: "<iq xmlns='jabber:client' type='set' id='x' from='me@example.net'/><close xmlns='urn:ietf:params:xml:ns:xmpp-framing'/>", Label: "corpus/ws-mux"},
+	{NS: "jabber:client", Own: sv.OwnFull, WS: true, Script: "<iq xmlns='jabber:client' type='get' id='x'><close xmlns='urn:ietf:params:xml:ns:xmpp-framing'/></iq><iq xmlns='jabber:client' type='get' id='y'/><close xmlns='urn:ietf:params:xml:ns:xmpp-framing'/>", Progs: [][]sv.Op{{{K: "readret", N: 40}}}, Label: "corpus/ws-nested-close"},
 	// a handler that returns io.EOF (taken for the peer's close: no reply, Serve returned nil)
 	{NS: "jabber:client", Own: sv.OwnFull, Script: "<iq type='get' id='x'><query xmlns='urn:example:q'/></iq><iq type='get' id='y'/></stream:stream>", Progs: [][]sv.Op{{{K: "read", N: 1}, {K: "ret", Ret: "eof"}}}, Label: "corpus/handler-eof"},
 	// qualified look-alike attributes (x:id / x:type / x:from were taken for the stanza's own)
